@@ -171,7 +171,7 @@ Proof.
     assert (B3 : (length P + length l + 1 <? length P + S (length l))%nat = false)
       by (apply Nat.ltb_ge; lia).
     rewrite B3. f_equal. lia.
-  - assert (Q1 : P ++ (blen l :: l ++ lab (l2 :: X)) ++ rest = (P ++ blen l :: l) ++ lab (l2 :: X) ++ rest).
+  - assert (Q1 : P ++ blen l :: (l ++ lab (l2 :: X)) ++ rest = (P ++ blen l :: l) ++ lab (l2 :: X) ++ rest).
     { rewrite <- (app_assoc P). cbn [app]. rewrite <- (app_assoc l). reflexivity. }
     rewrite Q1.
     assert (Q2 : (length P + length (blen l :: l ++ lab (l2 :: X)) = length (P ++ blen l :: l) + length (lab (l2 :: X)))%nat).
@@ -232,3 +232,611 @@ Proof.
       * exists [], (l :: R), (l' :: N). split; auto. split; auto. split; auto.
         intro C. subst. rewrite bytes_eqb_refl in E. discriminate.
 Qed.
+
+(* ---------------------------------------------------------------- lists and arrays *)
+
+Lemma set_nth_app_r : forall {A} (p : list A) i x l, set_nth (length p + i) x (p ++ l) = p ++ set_nth i x l.
+Proof. induction p as [|a p IH]; intros; simpl; auto. rewrite IH. reflexivity. Qed.
+
+Lemma set_nth_length : forall {A} i (x : A) l, length (set_nth i x l) = length l.
+Proof. intros A i x l. revert i. induction l as [|a l IH]; intro i; destruct i; simpl; auto. Qed.
+
+Lemma firstn_set_nth_lt : forall {A} n i (x : A) l, (n <= i)%nat -> firstn n (set_nth i x l) = firstn n l.
+Proof.
+  intros A n i x l. revert n i. induction l as [|a l IH]; intros n i H; destruct i; destruct n; simpl; auto; try lia.
+  rewrite IH; auto. lia.
+Qed.
+
+Lemma nth_set_nth_eq : forall {A} i (x d : A) l, (i < length l)%nat -> nth i (set_nth i x l) d = x.
+Proof. intros A i x d l. revert i. induction l as [|a l IH]; intros i H; destruct i; simpl in *; auto; try lia. apply IH. lia. Qed.
+
+Lemma forallb_rev : forall {A} (f : A -> bool) l, forallb f (rev l) = forallb f l.
+Proof.
+  intros A f l. induction l as [|a l IH]; simpl; auto. rewrite forallb_app, IH. simpl. rewrite Bool.andb_true_r, Bool.andb_comm. reflexivity.
+Qed.
+
+Lemma wf_rev : forall l, wf_labelsb (rev l) = wf_labelsb l.
+Proof. intro l. unfold wf_labelsb. apply forallb_rev. Qed.
+
+Lemma wf_firstn : forall j l, wf_labelsb l = true -> wf_labelsb (firstn j l) = true.
+Proof.
+  intros j l. revert j. induction l as [|a l IH]; intros j H; destruct j; simpl; auto.
+  simpl in H. apply Bool.andb_true_iff in H. destruct H as [H1 H2]. rewrite H1. simpl. auto.
+Qed.
+
+Lemma firstn_plus : forall {A} a b (l : list A), firstn (a + b) l = firstn a l ++ firstn b (skipn a l).
+Proof.
+  intros A a. induction a as [|a IH]; intros b l; [reflexivity|].
+  destruct l as [|x l]; [destruct b; reflexivity|]. cbn [Nat.add firstn skipn app]. rewrite IH. reflexivity.
+Qed.
+
+Lemma lab_length_mono : forall j j' (R : list bytes), wf_labelsb R = true -> (j' <= length R)%nat ->
+  (length (lab (firstn j R)) <= length (lab (firstn j' R)))%nat -> (j <= j')%nat \/ (length R <= j')%nat.
+Proof.
+  intros j j' R W Hj' H. destruct (Nat.le_gt_cases j j') as [|G]; auto.
+  (* firstn j R extends firstn j' R by at least one non-empty label *)
+  assert (E : firstn j R = firstn j' R ++ firstn (j - j') (skipn j' R)).
+  { replace j with (j' + (j - j'))%nat at 1 by lia. apply firstn_plus. }
+  rewrite E, lab_app, app_length in H.
+  destruct (skipn j' R) as [|l r] eqn:Es.
+  - right. assert (X : length (skipn j' R) = 0%nat) by (rewrite Es; reflexivity). rewrite skipn_length in X. lia.
+  - exfalso. assert (Wl : wf_labelsb (l :: r) = true).
+    { rewrite <- Es. rewrite <- (firstn_skipn j' R) in W. rewrite wf_labels_app in W. apply Bool.andb_true_iff in W. tauto. }
+    destruct (wf_label_nonzero l r Wl) as [_ Lz].
+    destruct (j - j')%nat eqn:Ej; [lia|]. cbn [firstn] in H. rewrite lab_cons in H. simpl in H. lia.
+Qed.
+
+Lemma lookup_some : forall decls kind w n id, lookup_decl decls kind w n = Some id ->
+  exists d, In d decls /\ md_kind d = kind /\ md_wild d = w /\ md_name d = n /\ md_id d = id.
+Proof.
+  induction decls as [|d ds IH]; simpl; intros kind w n id H; [discriminate|].
+  destruct ((md_kind d =? kind) && Bool.eqb (md_wild d) w && labels_eqb (md_name d) n) eqn:C.
+  - inversion H; subst. apply Bool.andb_true_iff in C. destruct C as [C C3].
+    apply Bool.andb_true_iff in C. destruct C as [C1 C2].
+    apply N.eqb_eq in C1. apply Bool.eqb_prop in C2. apply labels_eqb_eq in C3. exists d. auto.
+  - destruct (IH kind w n id H) as [d' [Hd R]]. exists d'. auto.
+Qed.
+
+Lemma lookup_none : forall decls kind w n, lookup_decl decls kind w n = None ->
+  forall d, In d decls -> md_kind d = kind -> md_wild d = w -> md_name d <> n.
+Proof.
+  induction decls as [|d0 ds IH]; simpl; intros kind w n H d Hd Ek Ew En; [contradiction|].
+  destruct ((md_kind d0 =? kind) && Bool.eqb (md_wild d0) w && labels_eqb (md_name d0) n) eqn:C; [discriminate|].
+  destruct Hd as [->|Hd].
+  - rewrite Ek, Ew, En, N.eqb_refl, Bool.eqb_reflx in C. cbn [andb] in C.
+    assert (X : labels_eqb n n = true) by (apply labels_eqb_eq; reflexivity). congruence.
+  - exact (IH kind w n H d Hd Ek Ew En).
+Qed.
+
+(* ---------------------------------------------------------------- the map records of a v2 database *)
+
+Section V2.
+  Variable decls : list mapdecl.
+  Variable kind : N.
+  Variable db : list kv.
+
+  Definition vkey (n : list bytes) (s : N) : bytes := [0; kind] ++ lab n ++ [0; s].
+
+  Hypothesis wf_decls : forall d, In d decls -> wf_labelsb (md_name d) = true.
+  Hypothesis uniq : forall d d', In d decls -> In d' decls ->
+    md_kind d = md_kind d' -> md_name d = md_name d' -> md_wild d = md_wild d' -> md_id d = md_id d'.
+  (* the map records of this kind are exactly the declarations, under reversed names *)
+  Hypothesis D1 : forall d, In d decls -> md_kind d = kind ->
+    In (vkey (rev (md_name d)) (suffix_of (md_wild d)), mv1 (mapid_bytes (md_id d))) db.
+  Hypothesis D2 : forall k v, In (k, v) db -> is_prefix [0; kind] k = true ->
+    exists d, In d decls /\ md_kind d = kind /\ k = vkey (rev (md_name d)) (suffix_of (md_wild d)) /\
+              v = mv1 (mapid_bytes (md_id d)).
+
+  Lemma vkey_prefix : forall n s, is_prefix [0; kind] (vkey n s) = true.
+  Proof. intros. unfold vkey. cbn. rewrite N.eqb_refl. reflexivity. Qed.
+
+  Lemma vkey_inj : forall n s n' s', wf_labelsb n = true -> wf_labelsb n' = true ->
+    vkey n s = vkey n' s' -> n = n' /\ s = s'.
+  Proof.
+    intros n s n' s' W W' H. unfold vkey in H. cbn [app] in H. injection H as H.
+    assert (E : pack_labels n ++ [s] = pack_labels n' ++ [s']).
+    { rewrite !pack_lab, <- !app_assoc. exact H. }
+    apply app_inj_tail in E. destruct E as [E1 E2]. split; auto. apply pack_labels_inj; auto.
+  Qed.
+
+  Lemma suffix_of_inj : forall w w', suffix_of w = suffix_of w' -> w = w'.
+  Proof. intros [] []; auto; discriminate. Qed.
+
+  (* a declared (name, wildcard?) has its record *)
+  Lemma key_present : forall w n id, lookup_decl decls kind w n = Some id ->
+    In (vkey (rev n) (suffix_of w), mv1 (mapid_bytes id)) db.
+  Proof.
+    intros w n id H. destruct (lookup_some decls kind w n id H) as [d [Hd [E1 [E2 [E3 E4]]]]].
+    pose proof (D1 d Hd E1) as X. rewrite E2, E3, E4 in X. exact X.
+  Qed.
+
+  (* a record under the key of (name, wildcard?) is the record of its declaration *)
+  Lemma key_found : forall a w v, wf_labelsb a = true -> In (vkey a (suffix_of w), v) db ->
+    exists id, lookup_decl decls kind w (rev a) = Some id /\ v = mv1 (mapid_bytes id).
+  Proof.
+    intros a w v Wa Hin. destruct (D2 _ _ Hin (vkey_prefix _ _)) as [d [Hd [Ek [Ekey Ev]]]].
+    apply vkey_inj in Ekey; auto; [|rewrite wf_rev; apply wf_decls; auto].
+    destruct Ekey as [Ea Es]. apply suffix_of_inj in Es.
+    destruct (lookup_decl decls kind w (rev a)) as [id|] eqn:L.
+    - exists id. split; auto. destruct (lookup_some decls kind w (rev a) id L) as [d' [Hd' [E1 [E2 [E3 E4]]]]].
+      rewrite Ev. do 2 f_equal. rewrite <- E4. apply uniq; auto; try congruence.
+      rewrite E3, Ea, rev_involutive. reflexivity.
+    - exfalso. apply (lookup_none decls kind w (rev a) L d Hd Ek); auto. rewrite Ea, rev_involutive. reflexivity.
+  Qed.
+
+  (* ---- order of the keys *)
+  Lemma vkey_shape : forall A x s, vkey (A ++ x) s = ([0; kind] ++ lab A) ++ (lab x ++ [0; s]).
+  Proof. intros. unfold vkey. rewrite lab_app, <- !app_assoc. reflexivity. Qed.
+
+  (* the wildcard key of a strict ancestor sorts before the keys of the name *)
+  Lemma vkey_anc_lt : forall A l r s, wf_labelsb (l :: r) = true ->
+    bltb (vkey A 42) (vkey (A ++ l :: r) s) = true.
+  Proof.
+    intros A l r s W. destruct (wf_label_nonzero l r W) as [Nz _].
+    rewrite <- (app_nil_r A) at 1. rewrite !vkey_shape. apply bltb_iff. rewrite bcmp_app.
+    change (lab (l :: r)) with (blen l :: l ++ lab r). cbn [lab flat_map app bcmp].
+    assert (E : (0 ?= blen l) = Lt) by (apply N.compare_lt_iff; lia). rewrite E. reflexivity.
+  Qed.
+
+  (* a key that leaves the name at A and lies below the probe also lies below every wildcard key
+     of a longer ancestor *)
+  Lemma skip_lt : forall A tN s' m kk s w, wf_labelsb (m :: kk) = true ->
+    (tN = [] \/ exists t tt, tN = t :: tt /\ t <> m) ->
+    bltb (vkey (A ++ tN) s') (vkey (A ++ m :: kk) s) = true ->
+    bltb (vkey (A ++ tN) s') (vkey (A ++ m :: w) 42) = true.
+  Proof.
+    intros A tN s' m kk s w W Ht H. destruct (wf_label_nonzero m kk W) as [Nz _].
+    rewrite !vkey_shape in *. apply bltb_iff in H. apply bltb_iff. rewrite bcmp_app in *.
+    destruct Ht as [->|[t [tt [-> Hne]]]].
+    - cbn [lab flat_map app bcmp] in *.
+      assert (E : (0 ?= blen m) = Lt) by (apply N.compare_lt_iff; lia). rewrite E. reflexivity.
+    - change (lab (t :: tt)) with (blen t :: t ++ lab tt) in *.
+      change (lab (m :: kk)) with (blen m :: m ++ lab kk) in H.
+      change (lab (m :: w)) with (blen m :: m ++ lab w).
+      replace ((blen t :: t ++ lab tt) ++ [0; s']) with ((blen t :: t) ++ (lab tt ++ [0; s'])) in *
+        by (cbn [app]; rewrite <- app_assoc; reflexivity).
+      replace ((blen m :: m ++ lab kk) ++ [0; s]) with ((blen m :: m) ++ (lab kk ++ [0; s])) in H
+        by (cbn [app]; rewrite <- app_assoc; reflexivity).
+      replace ((blen m :: m ++ lab w) ++ [0; 42]) with ((blen m :: m) ++ (lab w ++ [0; 42]))
+        by (cbn [app]; rewrite <- app_assoc; reflexivity).
+      destruct (decided_label t m (lab tt ++ [0; s']) (lab kk ++ [0; s]) Hne) as [E1 _].
+      destruct (decided_label t m (lab tt ++ [0; s']) (lab w ++ [0; 42]) Hne) as [E2 _].
+      rewrite E2, <- E1. exact H.
+  Qed.
+
+  (* ---- the search *)
+  Variable ls : list bytes.
+  Hypothesis wf_ls : wf_labelsb ls = true.
+
+  Let R := rev ls.
+  Let rz := pack_labels R.
+  Definition anc (j : nat) : list bytes := firstn j R.
+  Definition name (j : nat) : list bytes := rev (anc j).
+  Definition clen (j : nat) : nat := length (lab (anc j)).
+
+  Lemma wf_R : wf_labelsb R = true.
+  Proof. unfold R. rewrite wf_rev. exact wf_ls. Qed.
+  Lemma wf_anc : forall j, wf_labelsb (anc j) = true.
+  Proof. intro j. apply wf_firstn. apply wf_R. Qed.
+
+  (* the nearest enclosing wildcard map at or above the ancestor with j labels *)
+  Fixpoint Wd (j : nat) : option mapid :=
+    match lookup_decl decls kind true (name j) with
+    | Some m => Some m
+    | None => match j with O => None | S j' => Wd j' end
+    end.
+
+  Lemma Wd_skip : forall j j', (j' <= j)%nat ->
+    (forall i, (j' < i <= j)%nat -> lookup_decl decls kind true (name i) = None) -> Wd j = Wd j'.
+  Proof.
+    induction j as [|j IH]; intros j' H Hn.
+    - assert (j' = 0)%nat by lia. subst. reflexivity.
+    - destruct (Nat.eq_dec j' (S j)) as [ -> |NE]; [reflexivity|].
+      cbn [Wd]. rewrite (Hn (S j)) by lia. apply IH; [lia|]. intros i Hi. apply Hn. lia.
+  Qed.
+
+  Lemma Wd_none : forall j, (forall i, (i <= j)%nat -> lookup_decl decls kind true (name i) = None) -> Wd j = None.
+  Proof.
+    induction j as [|j IH]; intro Hn; cbn [Wd]; rewrite Hn by lia; [reflexivity|]. apply IH. intros. apply Hn. lia.
+  Qed.
+
+  Lemma name_S : forall j, (j < length R)%nat -> exists x, name (S j) = x :: name j.
+  Proof.
+    intros j H. unfold name, anc.
+    destruct (skipn j R) as [|x r] eqn:Es.
+    - assert (X : length (skipn j R) = 0%nat) by (rewrite Es; reflexivity). rewrite skipn_length in X. lia.
+    - exists x. replace (S j) with (j + 1)%nat by lia. rewrite firstn_plus, Es. cbn [firstn].
+      rewrite rev_app_distr. reflexivity.
+  Qed.
+
+  Lemma name_full : name (length R) = ls.
+  Proof. unfold name, anc. rewrite firstn_all. unfold R. apply rev_involutive. Qed.
+
+  Lemma nearest_wild_Wd : forall j, (j < length R)%nat -> nearest_wild decls kind (name (S j)) = Wd j.
+  Proof.
+    induction j as [|j IH]; intro H.
+    - destruct (name_S 0 H) as [x E]. rewrite E. cbn [nearest_wild Wd].
+      destruct (lookup_decl decls kind true (name 0)); auto.
+    - destruct (name_S (S j) H) as [x E]. rewrite E. cbn [nearest_wild Wd].
+      destruct (lookup_decl decls kind true (name (S j))); auto. apply IH. lia.
+  Qed.
+
+  (* the specification, indexed by the number of labels *)
+  Lemma map_choice_Wd : map_choice decls kind ls =
+    match lookup_decl decls kind false ls with
+    | Some m => Some m
+    | None => match length R with O => None | S j => Wd j end
+    end.
+  Proof.
+    unfold map_choice. destruct (lookup_decl decls kind false ls); auto.
+    destruct (length R) as [|j] eqn:E.
+    - assert (ls = []).
+      { unfold R in E. rewrite rev_length in E. destruct ls; [reflexivity|discriminate E]. }
+      subst. reflexivity.
+    - rewrite <- name_full at 1. rewrite E. apply nearest_wild_Wd. lia.
+  Qed.
+
+  (* ---- the key buffer *)
+  Definition arr_ok (j : nat) (arr : bytes) : Prop :=
+    length arr = (2 + length (lab R) + 2)%nat /\
+    firstn (2 + clen j) arr = [0; kind] ++ lab (anc j) /\
+    nth (2 + clen j) arr 1 = 0.
+
+  Lemma clen_le : forall j, (clen j <= length (lab R))%nat.
+  Proof.
+    intro j. unfold clen, anc. rewrite <- (firstn_skipn j R) at 2. rewrite lab_app, app_length. lia.
+  Qed.
+
+  Lemma probe_key : forall j arr s, arr_ok j arr ->
+    firstn (2 + clen j + 2) (set_nth (2 + clen j + 2 - 1) s arr) = vkey (anc j) s.
+  Proof.
+    intros j arr s [A1 [A2 A3]]. pose proof (clen_le j) as Lc.
+    remember (firstn (2 + clen j) arr) as pre eqn:Epre.
+    remember (skipn (2 + clen j) arr) as suf eqn:Esuf.
+    assert (Earr : arr = pre ++ suf) by (subst; symmetry; apply firstn_skipn).
+    assert (Lp : length pre = (2 + clen j)%nat) by (subst pre; rewrite firstn_length; lia).
+    assert (Ls : length suf = (length (lab R) + 2 - clen j)%nat) by (subst suf; rewrite skipn_length; lia).
+    destruct suf as [|x0 [|x1 tl]]; [simpl in Ls; lia|simpl in Ls; lia|].
+    rewrite Earr in A3. rewrite <- Lp in A3. rewrite nth_app_len in A3. cbn [hd] in A3. subst x0.
+    rewrite Earr.
+    replace (2 + clen j + 2 - 1)%nat with (length pre + 1)%nat by lia.
+    rewrite set_nth_app_r. cbn [set_nth].
+    replace (2 + clen j + 2)%nat with (length pre + 2)%nat by lia.
+    rewrite firstn_app_2. cbn [firstn]. rewrite A2. unfold vkey. rewrite <- app_assoc. reflexivity.
+  Qed.
+
+  Lemma arr_ok_init : arr_ok (length R) ([0; kind] ++ rz ++ [61]).
+  Proof.
+    unfold arr_ok, clen, anc, rz. rewrite firstn_all, pack_lab. split; [|split].
+    - rewrite !app_length. simpl. lia.
+    - replace (2 + length (lab R))%nat with (length ([0; kind] ++ lab R)) by (rewrite app_length; reflexivity).
+      replace ([0; kind] ++ (lab R ++ [0]) ++ [61]) with (([0; kind] ++ lab R) ++ [0; 61])
+        by (rewrite <- !app_assoc; reflexivity).
+      rewrite firstn_app, Nat.sub_diag, firstn_all. cbn [firstn]. rewrite app_nil_r. reflexivity.
+    - replace (2 + length (lab R))%nat with (length ([0; kind] ++ lab R)) by (rewrite app_length; reflexivity).
+      replace ([0; kind] ++ (lab R ++ [0]) ++ [61]) with (([0; kind] ++ lab R) ++ [0; 61])
+        by (rewrite <- !app_assoc; reflexivity).
+      rewrite nth_app_len. reflexivity.
+  Qed.
+
+  Lemma anc_prefix : forall j' j, (j' <= j)%nat -> exists x, anc j = anc j' ++ x.
+  Proof.
+    intros j' j H. unfold anc. exists (firstn (j - j') (skipn j' R)).
+    replace j with (j' + (j - j'))%nat at 1 by lia. apply firstn_plus.
+  Qed.
+
+  Lemma arr_ok_step : forall j j' arr s, arr_ok j arr -> (j' <= j)%nat ->
+    arr_ok j' (set_nth (2 + clen j') 0 (set_nth (2 + clen j + 2 - 1) s arr)).
+  Proof.
+    intros j j' arr s [A1 [A2 A3]] H. pose proof (clen_le j) as Lc.
+    destruct (anc_prefix j' j H) as [x Ex].
+    assert (Lc' : (clen j' <= clen j)%nat) by (unfold clen; rewrite Ex, lab_app, app_length; lia).
+    split; [|split].
+    - rewrite !set_nth_length. exact A1.
+    - rewrite firstn_set_nth_lt by lia. rewrite firstn_set_nth_lt by lia.
+      assert (E : firstn (2 + clen j') arr = firstn (2 + clen j') (firstn (2 + clen j) arr))
+        by (rewrite firstn_firstn; f_equal; lia).
+      rewrite E, A2. unfold clen. rewrite Ex, lab_app.
+      replace (2 + length (lab (anc j')))%nat with (length ([0; kind] ++ lab (anc j'))) by (rewrite app_length; reflexivity).
+      rewrite app_assoc, firstn_app, Nat.sub_diag, firstn_all. cbn [firstn]. rewrite app_nil_r. reflexivity.
+    - apply nth_set_nth_eq. rewrite set_nth_length. lia.
+  Qed.
+
+  (* ---- small facts used by the loop *)
+  Lemma prefix_check : forall fk k, firstn 2 k = [0; kind] ->
+    (length fk <? 2)%nat || negb (bytes_eqb (firstn 2 fk) (firstn 2 k)) = negb (is_prefix [0; kind] fk).
+  Proof.
+    intros fk k Hk. rewrite Hk. destruct fk as [|a [|b fk']].
+    - reflexivity.
+    - cbn. destruct a; reflexivity.
+    - cbn [length firstn is_prefix bytes_eqb].
+      replace (S (S (length fk')) <? 2)%nat with false by (symmetry; apply Nat.ltb_ge; lia).
+      cbn [orb]. rewrite !Bool.andb_true_r. rewrite (N.eqb_sym a 0), (N.eqb_sym b kind). reflexivity.
+  Qed.
+
+  Lemma vkey_first2 : forall n s, firstn 2 (vkey n s) = [0; kind].
+  Proof. reflexivity. Qed.
+
+  Lemma vkey_length : forall n s, length (vkey n s) = (2 + length (lab n) + 2)%nat.
+  Proof. intros. unfold vkey. rewrite !app_length. simpl. lia. Qed.
+
+  Lemma found_label : forall n s, firstn (length (vkey n s) - 3) (skipn 2 (vkey n s)) = pack_labels n.
+  Proof.
+    intros n s. rewrite vkey_length. unfold vkey. cbn [app skipn].
+    replace (2 + length (lab n) + 2 - 3)%nat with (length (lab n) + 1)%nat by lia.
+    replace (lab n ++ [0; s]) with ((lab n ++ [0]) ++ [s]) by (rewrite <- app_assoc; reflexivity).
+    rewrite <- pack_lab.
+    replace (length (lab n) + 1)%nat with (length (pack_labels n)) by (rewrite pack_lab, app_length; simpl; lia).
+    rewrite firstn_app, Nat.sub_diag, firstn_all. cbn [firstn]. apply app_nil_r.
+  Qed.
+
+  Lemma anc_of_prefix : forall A t, R = A ++ t -> anc (length A) = A.
+  Proof. intros A t E. unfold anc. rewrite E, firstn_app, Nat.sub_diag, firstn_all. cbn [firstn]. apply app_nil_r. Qed.
+
+  Lemma clen_zero : forall j, (j <= length R)%nat -> clen j = 0%nat -> j = 0%nat.
+  Proof.
+    intros j Hj H. destruct j as [|j]; auto. exfalso. unfold clen, anc in H.
+    destruct R as [|l r] eqn:ER; [simpl in Hj; lia|]. cbn [firstn] in H.
+    pose proof wf_R as W. rewrite ER in W. destruct (wf_label_nonzero l r W) as [_ Lz].
+    change (lab (l :: firstn j r)) with (blen l :: l ++ lab (firstn j r)) in H. simpl in H. lia.
+  Qed.
+
+  Lemma anc_split : forall i j, (i < j)%nat -> (j <= length R)%nat ->
+    exists m w, anc j = anc i ++ m :: w /\ wf_labelsb (m :: w) = true /\ (forall j2, (i < j2)%nat -> (j2 <= length R)%nat -> exists w2, anc j2 = anc i ++ m :: w2).
+  Proof.
+    intros i j Hij Hj. unfold anc.
+    destruct (skipn i R) as [|m r] eqn:Es.
+    - assert (X : length (skipn i R) = 0%nat) by (rewrite Es; reflexivity). rewrite skipn_length in X. lia.
+    - exists m, (firstn (j - i - 1) r). split; [|split].
+      + replace j with (i + S (j - i - 1))%nat at 1 by lia. rewrite firstn_plus, Es. reflexivity.
+      + assert (W : wf_labelsb (firstn j R) = true) by (apply wf_firstn; apply wf_R).
+        replace j with (i + S (j - i - 1))%nat in W by lia. rewrite firstn_plus, Es in W.
+        rewrite wf_labels_app in W. apply Bool.andb_true_iff in W. tauto.
+      + intros j2 H1 H2. exists (firstn (j2 - i - 1) r).
+        replace j2 with (i + S (j2 - i - 1))%nat at 1 by lia. rewrite firstn_plus, Es. reflexivity.
+  Qed.
+
+  Lemma name_anc : forall j, rev (name j) = anc j.
+  Proof. intro j. unfold name. apply rev_involutive. Qed.
+
+  (* a declared wildcard of a strict ancestor has its record below the probe *)
+  Lemma wild_below : forall i j s id, (i < j)%nat -> (j <= length R)%nat ->
+    lookup_decl decls kind true (name i) = Some id ->
+    exists v, In (vkey (anc i) 42, v) db /\ bltb (vkey (anc i) 42) (vkey (anc j) s) = true.
+  Proof.
+    intros i j s id Hij Hj L. pose proof (key_present true (name i) id L) as X. rewrite name_anc in X.
+    eexists. split; [exact X|].
+    destruct (anc_split i j Hij Hj) as [m [w [E [W _]]]]. rewrite E. apply vkey_anc_lt. exact W.
+  Qed.
+
+  (* ---- the loop *)
+  Definition target (j : nat) (suffix : N) : option mapid :=
+    if suffix =? 61 then map_choice decls kind ls else Wd j.
+  Definition wild_of (suffix : N) : bool := suffix =? 42.
+
+  (* when the probed (name, wildcard?) is not declared and no ancestor above j' has a wildcard map,
+     the answer is the nearest wildcard at or above j' *)
+  Lemma target_skip : forall j j' suffix, (j' < j)%nat -> (j <= length R)%nat ->
+    ((suffix = 61 /\ j = length R) \/ suffix = 42) ->
+    lookup_decl decls kind (wild_of suffix) (name j) = None ->
+    (forall i, (j' < i < j)%nat -> lookup_decl decls kind true (name i) = None) ->
+    target j suffix = Wd j'.
+  Proof.
+    intros j j' suffix Hj' Hj Hs Hl Hskip. unfold target. destruct Hs as [[ -> -> ]| -> ].
+    - cbn [N.eqb Pos.eqb]. rewrite map_choice_Wd. unfold wild_of in Hl. cbn in Hl. rewrite name_full in Hl. rewrite Hl.
+      destruct (length R) as [|jm] eqn:E; [lia|]. apply Wd_skip; [lia|]. intros i Hi. apply Hskip. lia.
+    - cbn [N.eqb Pos.eqb]. apply Wd_skip; [lia|]. intros i Hi.
+      destruct (Nat.eq_dec i j) as [ -> |NE]; [exact Hl|]. apply Hskip. lia.
+  Qed.
+
+  Lemma target_none : forall j suffix, (j <= length R)%nat ->
+    ((suffix = 61 /\ j = length R) \/ suffix = 42) ->
+    lookup_decl decls kind (wild_of suffix) (name j) = None ->
+    (forall i, (i < j)%nat -> lookup_decl decls kind true (name i) = None) ->
+    target j suffix = None.
+  Proof.
+    intros j suffix Hj Hs Hl Hn. unfold target. destruct Hs as [[ -> -> ]| -> ].
+    - cbn [N.eqb Pos.eqb]. rewrite map_choice_Wd. unfold wild_of in Hl. cbn in Hl. rewrite name_full in Hl. rewrite Hl.
+      destruct (length R) as [|jm] eqn:E; [reflexivity|]. apply Wd_none. intros i Hi. apply Hn. lia.
+    - cbn [N.eqb Pos.eqb]. apply Wd_none. intros i Hi.
+      destruct (Nat.eq_dec i j) as [ -> |NE]; [exact Hl|]. apply Hn. lia.
+  Qed.
+
+  Lemma suffix_wild : forall j suffix, ((suffix = 61 /\ j = length R) \/ suffix = 42) ->
+    suffix_of (wild_of suffix) = suffix.
+  Proof. intros j suffix [[ -> _ ]| -> ]; reflexivity. Qed.
+
+  Lemma loop_spec : forall fuel j arr suffix, (j < fuel)%nat -> (j <= length R)%nat -> arr_ok j arr ->
+    ((suffix = 61 /\ j = length R) \/ suffix = 42) ->
+    v2_find_map_loop fuel db rz arr (2 + clen j + 2) suffix (clen j) =
+    Ok (option_map mapid_bytes (target j suffix)).
+  Proof.
+    induction fuel as [|fuel IH]; intros j arr suffix Hf Hj Hok Hs; [lia|].
+    cbn [v2_find_map_loop]. rewrite (probe_key j arr suffix Hok).
+    set (k := vkey (anc j) suffix).
+    pose proof (suffix_wild j suffix Hs) as Esw.
+    pose proof (seek_prev_spec db k) as Sp.
+    (* the probed declaration, if any, has its record under k *)
+    assert (Present : forall id, lookup_decl decls kind (wild_of suffix) (name j) = Some id ->
+                      In (k, mv1 (mapid_bytes id)) db).
+    { intros id L. pose proof (key_present (wild_of suffix) (name j) id L) as X.
+      rewrite name_anc, Esw in X. exact X. }
+    destruct (seek_prev db k) as [[fk fv]|].
+    2:{ (* nothing at or below the probe *)
+      rewrite target_none; auto.
+      - destruct (lookup_decl decls kind (wild_of suffix) (name j)) as [id|] eqn:L; auto.
+        pose proof (Sp _ _ (Present id eq_refl)) as X. rewrite bleb_refl in X. discriminate.
+      - intros i Hi. destruct (lookup_decl decls kind true (name i)) as [id|] eqn:L; auto.
+        destruct (wild_below i j suffix id Hi Hj L) as [v [Hin Hlt]].
+        pose proof (Sp _ _ Hin) as X. assert (Y : bleb (vkey (anc i) 42) k = true) by (apply bleb_cases; auto).
+        congruence. }
+    destruct Sp as [Hin [Hle Hmax]].
+    destruct (bytes_eqb fk k) eqn:Eq.
+    - (* the exact record *)
+      apply bytes_eqb_eq in Eq. subst fk. unfold k in Hin. rewrite <- Esw in Hin.
+      destruct (key_found (anc j) (wild_of suffix) fv (wf_anc j) Hin) as [id [L ->]].
+      assert (L4 : (length (mv1 (mapid_bytes id)) <? 4)%nat = false) by (destruct id; reflexivity).
+      rewrite L4. change (skipn 4 (mv1 (mapid_bytes id))) with (mapid_bytes id).
+      f_equal. f_equal. unfold target. fold (name j) in L.
+      destruct Hs as [[ -> -> ]| -> ].
+      + cbn [N.eqb Pos.eqb]. unfold map_choice. unfold wild_of in L. cbn in L. rewrite name_full in L. rewrite L. reflexivity.
+      + cbn [N.eqb Pos.eqb]. unfold wild_of in L. cbn in L. destruct j; cbn [Wd]; rewrite L; reflexivity.
+    - (* not the exact record: the probed declaration does not exist *)
+      assert (Hne : fk <> k) by (intro C; subst; rewrite bytes_eqb_refl in Eq; discriminate).
+      assert (Hlt : bltb fk k = true) by (apply bleb_cases in Hle; destruct Hle; [contradiction|auto]).
+      assert (Lnone : lookup_decl decls kind (wild_of suffix) (name j) = None).
+      { destruct (lookup_decl decls kind (wild_of suffix) (name j)) as [id|] eqn:L; auto. exfalso.
+        pose proof (Hmax _ _ (Present id eq_refl) (bleb_refl k)) as X. apply Hne. apply bleb_antisym; auto. }
+      destruct (clen j =? 0)%nat eqn:Ec.
+      { (* the root was the last candidate *)
+        apply Nat.eqb_eq in Ec. pose proof (clen_zero j Hj Ec) as J0. subst j.
+        rewrite target_none; auto. intros i Hi. lia. }
+      apply Nat.eqb_neq in Ec.
+      rewrite (prefix_check fk k (vkey_first2 _ _)).
+      destruct (is_prefix [0; kind] fk) eqn:Pf; cbn [negb].
+      2:{ (* the closest record is not a map record of this kind: no ancestor has a wildcard map *)
+        rewrite target_none; auto. intros i Hi.
+        destruct (lookup_decl decls kind true (name i)) as [id|] eqn:L; auto. exfalso.
+        destruct (wild_below i j suffix id Hi Hj L) as [v [Hin' Hlt']].
+        assert (Y : bleb (vkey (anc i) 42) k = true) by (apply bleb_cases; auto).
+        pose proof (Hmax _ _ Hin' Y) as Z.
+        pose proof (prefix_interval [0; kind] (vkey (anc i) 42) fk k (vkey_prefix _ _) (vkey_prefix _ _) Z Hle). congruence. }
+      destruct (D2 _ _ Hin Pf) as [d [Hd [Ek [Efk Ev]]]].
+      set (Nn := rev (md_name d)) in *. set (sf := suffix_of (md_wild d)) in *.
+      assert (WN : wf_labelsb Nn = true) by (unfold Nn; rewrite wf_rev; apply wf_decls; auto).
+      assert (L3 : (length fk <? 3)%nat = false) by (rewrite Efk, vkey_length; apply Nat.ltb_ge; lia).
+      rewrite L3. rewrite Efk at 1 2. rewrite found_label. unfold rz.
+      rewrite (common_prefix_spec R Nn wf_R WN).
+      destruct (cpl_split R Nn) as [A [tR [tN [ER [EN Hc]]]]].
+      pose proof (clen_le j) as Lc.
+      destruct (clen j <? cpl R Nn)%nat eqn:Cgt.
+      + (* the closest record has the probed name itself: go to the parent *)
+        apply Nat.ltb_lt in Cgt.
+        assert (Jpos : (0 < j)%nat) by (destruct j; [unfold clen, anc in Ec; simpl in Ec; lia|lia]).
+        assert (Eparent : length_without_last_label (pack_labels R) (clen j + 1) = Ok (clen (j - 1) + 1)%nat).
+        { unfold length_without_last_label.
+          destruct (anc_prefix j (length R) Hj) as [x Ex]. unfold anc at 1 in Ex. rewrite firstn_all in Ex.
+          assert (Hane : anc j <> []).
+          { unfold anc. destruct R as [|r0 R'] eqn:ER0; [simpl in Hj; lia|]. destruct j; [lia|]. discriminate. }
+          assert (Epar : removelast (anc j) = anc (j - 1)).
+          { unfold anc. replace j with (S (j - 1)) at 1 by lia. apply removelast_firstn. lia. }
+          assert (Erz : pack_labels R = [] ++ lab (anc j) ++ (lab x ++ [0])).
+          { rewrite pack_lab. remember (anc j) as aj. rewrite Ex, lab_app, <- app_assoc. reflexivity. }
+          assert (Efuel : (length (anc j) < S (length (pack_labels R)))%nat).
+          { pose proof (pack_labels_length R). unfold anc. rewrite firstn_length. lia. }
+          remember (S (length (pack_labels R))) as fu.
+          pose proof (glwll_spec (anc j) [] (lab x ++ [0]) fu 0%nat (wf_anc j) Hane Efuel) as G.
+          cbn [app length Nat.add] in G.
+          rewrite Erz. cbn [app]. replace (clen j + 1 - 1)%nat with (length (lab (anc j))) by (unfold clen; lia).
+          rewrite G. f_equal. rewrite Epar. unfold clen. lia. }
+        rewrite Eparent. cbn [rbind]. replace (clen (j - 1) + 1 - 1)%nat with (clen (j - 1)) by lia.
+        destruct (anc_prefix (j - 1) j ltac:(lia)) as [x Ex].
+        assert (Lc1 : (clen (j - 1) <= clen j)%nat) by (unfold clen; rewrite Ex, lab_app, app_length; lia).
+        replace (2 + clen j + 2 <=? 2 + clen (j - 1))%nat with false by (symmetry; apply Nat.leb_gt; lia).
+        destruct Hok as [A1 [A2 A3]].
+        replace (length arr <? 2 + clen (j - 1) + 2)%nat with false by (symmetry; apply Nat.ltb_ge; lia).
+        rewrite (IH (j - 1)%nat); [|lia|lia|apply arr_ok_step; [split; auto|lia]|right; reflexivity].
+        f_equal. f_equal. symmetry. apply target_skip; auto; try lia; intros; lia.
+      + (* the closest record leaves the name at the ancestor A *)
+        apply Nat.ltb_ge in Cgt. cbn [rbind].
+        assert (Hc' : cpl R Nn = length (lab A) /\ (tN = [] \/ exists t tt, tN = t :: tt /\ forall m w, tR = m :: w -> t <> m) /\ tR <> []).
+        { destruct tR as [|m w], tN as [|t tt].
+          - exfalso. rewrite app_nil_r in ER. rewrite <- ER in Hc. lia.
+          - exfalso. rewrite app_nil_r in ER. subst A. (* found = name ++ more labels: above the probe *)
+            rewrite Hc in Cgt.
+            assert (J : j = length R).
+            { destruct (lab_length_mono (length R) j R wf_R Hj) as [X|X]; try lia.
+              unfold clen, anc in Cgt. rewrite firstn_all. exact Cgt. }
+            subst j. unfold k, anc in Hlt. rewrite firstn_all in Hlt. rewrite Efk, EN in Hlt.
+            rewrite <- (app_nil_r R) in Hlt at 2. rewrite !vkey_shape in Hlt. apply bltb_iff in Hlt.
+            rewrite bcmp_app in Hlt. change (lab (t :: tt)) with (blen t :: t ++ lab tt) in Hlt.
+            cbn [lab flat_map app bcmp] in Hlt.
+            assert (Wt : wf_labelsb (t :: tt) = true).
+            { rewrite EN, wf_labels_app in WN. apply Bool.andb_true_iff in WN. tauto. }
+            destruct (wf_label_nonzero t tt Wt) as [Nz _].
+            assert (E : (blen t ?= 0) = Gt) by (apply N.compare_gt_iff; lia). rewrite E in Hlt. discriminate.
+          - split; auto. split; [left; reflexivity|discriminate].
+          - destruct Hc as [Hne' Hc]. split; auto. split; [|discriminate].
+            right. exists t, tt. split; auto. intros m' w' E. inversion E; subst. auto. }
+        destruct Hc' as [Ecpl [HtN HtR]]. rewrite Ecpl in *.
+        set (j' := length A).
+        assert (EA : anc j' = A) by (apply (anc_of_prefix A tR ER)).
+        assert (Ecl : clen j' = length (lab A)) by (unfold clen; rewrite EA; reflexivity).
+        assert (Hj'R : (j' <= length R)%nat) by (unfold j'; rewrite ER, app_length; lia).
+        assert (Hj'j : (j' < j)%nat).
+        { destruct (Nat.lt_ge_cases j' j) as [|Ge]; auto. exfalso.
+          (* A extends the probed name: the record would not lie below the probe *)
+          destruct (anc_prefix j j' Ge) as [x Ex]. rewrite EA in Ex.
+          assert (Ecj : clen j = length (lab A)).
+          { unfold clen in *. rewrite Ex, lab_app, app_length in *. lia. }
+          assert (Xnil : lab x = []).
+          { rewrite Ex, lab_app, app_length in Ecj. unfold clen in Ecj. destruct (lab x); [reflexivity|simpl in Ecj; lia]. }
+          assert (x = []).
+          { destruct x as [|x0 x']; auto. change (lab (x0 :: x')) with (blen x0 :: x0 ++ lab x') in Xnil. discriminate. }
+          subst x. rewrite app_nil_r in Ex. rewrite Ex in EN, ER.
+          unfold k in Hlt. rewrite Efk, EN in Hlt.
+          rewrite <- (app_nil_r (anc j)) in Hlt at 2. rewrite !vkey_shape in Hlt. apply bltb_iff in Hlt.
+          rewrite bcmp_app in Hlt.
+          destruct HtN as [ -> |[t [tt [ -> Hne']]]].
+          - cbn [lab flat_map app bcmp] in Hlt. rewrite N.compare_refl in Hlt.
+            (* equal names: the suffix of the record is smaller than the probed one *)
+            destruct (sf ?= suffix) eqn:Cs; try discriminate Hlt.
+            rewrite N.compare_lt_iff in Cs.
+            assert (S61 : suffix = 61).
+            { unfold sf in Cs. destruct Hs as [[ -> _ ]| -> ]; auto. destruct (md_wild d); cbn in Cs; lia. }
+            destruct Hs as [[_ Jl]|S42]; [|congruence].
+            subst j. unfold anc in ER. rewrite firstn_all in ER.
+            assert (tR = []). { destruct tR; auto. apply (f_equal (@length bytes)) in ER. rewrite app_length in ER. simpl in ER. lia. }
+            contradiction.
+          - change (lab (t :: tt)) with (blen t :: t ++ lab tt) in Hlt. cbn [lab flat_map app bcmp] in Hlt.
+            assert (Wt : wf_labelsb (t :: tt) = true).
+            { rewrite EN, wf_labels_app in WN. apply Bool.andb_true_iff in WN. tauto. }
+            destruct (wf_label_nonzero t tt Wt) as [Nz _].
+            assert (E : (blen t ?= 0) = Gt) by (apply N.compare_gt_iff; lia). rewrite E in Hlt. discriminate. }
+        assert (Lc1 : (length (lab A) <= clen j)%nat) by lia.
+        replace (2 + clen j + 2 <=? 2 + length (lab A))%nat with false by (symmetry; apply Nat.leb_gt; lia).
+        destruct Hok as [A1 [A2 A3]].
+        replace (length arr <? 2 + length (lab A) + 2)%nat with false by (symmetry; apply Nat.ltb_ge; lia).
+        rewrite <- Ecl.
+        rewrite (IH j'); [|lia|exact Hj'R|apply arr_ok_step; [split; auto|lia]|right; reflexivity].
+        f_equal. f_equal. symmetry. apply target_skip; auto.
+        intros i Hi.
+        destruct (lookup_decl decls kind true (name i)) as [id|] eqn:L; auto. exfalso.
+        destruct (wild_below i j suffix id ltac:(lia) Hj L) as [v [Hin' Hlt']].
+        assert (Y : bleb (vkey (anc i) 42) k = true) by (apply bleb_cases; auto).
+        pose proof (Hmax _ _ Hin' Y) as Z.
+        (* the record lies strictly below that wildcard key *)
+        destruct (anc_split j' j Hj'j Hj) as [m [kk [Ej [Wm Hall]]]].
+        destruct (Hall i ltac:(lia) ltac:(lia)) as [w2 Ei].
+        assert (Etr : exists w0, tR = m :: w0).
+        { destruct (anc_prefix j (length R) Hj) as [rest Erest]. unfold anc at 1 in Erest. rewrite firstn_all in Erest.
+          rewrite Ej, EA in Erest. rewrite <- app_assoc in Erest. cbn [app] in Erest.
+          rewrite ER in Erest at 1. apply app_inv_head in Erest. eauto. }
+        destruct Etr as [w0 Etr].
+        assert (HtN' : tN = [] \/ exists t tt, tN = t :: tt /\ t <> m).
+        { destruct HtN as [|[t [tt [E Hd']]]]; auto. right. exists t, tt. split; auto. apply (Hd' m w0). exact Etr. }
+        assert (Lt2 : bltb fk (vkey (anc i) 42) = true).
+        { rewrite Efk, EN, Ei, EA. apply (skip_lt A tN sf m kk suffix w2 Wm HtN').
+          rewrite <- EA at 2. rewrite <- Ej. rewrite <- EN, <- Efk. exact Hlt. }
+        rewrite (bltb_not_leb _ _ Lt2) in Z. discriminate.
+  Qed.
+
+  (* RocksDB v2 keys: exact-name map first, else the nearest enclosing wildcard map *)
+  Theorem v2_find_map_choice :
+    v2_find_map db [0; kind] (pack_labels ls) = Ok (option_map mapid_bytes (map_choice decls kind ls)).
+  Proof.
+    unfold v2_find_map. rewrite (rev_name_pack ls wf_ls). fold R. fold rz.
+    assert (Ec : clen (length R) = length (lab R)) by (unfold clen, anc; rewrite firstn_all; reflexivity).
+    assert (E1 : length ([0; kind] ++ rz ++ [61]) = (2 + clen (length R) + 2)%nat).
+    { rewrite Ec. unfold rz. rewrite pack_lab, !app_length. simpl. lia. }
+    assert (E2 : (length rz - 1)%nat = clen (length R)).
+    { rewrite Ec. unfold rz. rewrite pack_lab, app_length. simpl. lia. }
+    rewrite E1, E2.
+    rewrite (loop_spec (length (pack_labels ls) + 2) (length R) ([0; kind] ++ rz ++ [61]) 61).
+    - unfold target. reflexivity.
+    - pose proof (pack_labels_length ls). unfold R. rewrite rev_length. lia.
+    - lia.
+    - apply arr_ok_init.
+    - left. auto.
+  Qed.
+End V2.
